@@ -71,6 +71,27 @@ def rule_model_bridges(prog, rep):
         ("c11", "CYS", "CYS", "D", 7, (80.0, 0.0, 0.0)), ("c12", "CYS", "CYS", "D", 9, (80.0, 0.0, limit - 0.01)),
     ]
     want = {frozenset(("c1", "c2")), frozenset(("c3", "c4")), frozenset(("c11", "c12"))}
+    # bridged pairs that straddle a whole cell of every grid spacing below the limit that the code could search neighbours with (the numeric
+    # constants of config.py and a few round values), along each axis, at negative and positive coordinates: detection must not depend on
+    # where the molecule sits in space
+    spacings = sorted({1.0, 1.5, 2.0, 2.4} | {float(v) for v in prog.module_constants("config.py").values()
+                                             if isinstance(v, (int, float)) and not isinstance(v, bool) and 0.5 <= v < limit - 0.03})
+    n = 0
+    for sp in spacings:
+        d = round(min(limit - 0.01, max(sp + 0.03, 2.03)), 3)
+        if d <= sp + 0.02:
+            continue
+        for axis in range(3):
+            for k in (3, -4):
+                n += 1
+                shift = sp * round(200.0 * n / sp)  # pairs are kept 200 A apart along x, by a whole number of cells
+                p1 = [shift + 0.5 * sp, 0.5 * sp, 0.5 * sp]
+                p1[axis] = k * sp - 0.01 + (shift if axis == 0 else 0.0)  # just below a cell boundary; the partner lies beyond the next one
+                p2 = list(p1)
+                p2[axis] = p1[axis] + d
+                spec.append((f"g{n}a", "CYS", "CYS", "G", 100 + 2 * n, tuple(p1)))
+                spec.append((f"g{n}b", "CYS", "CYS", "G", 101 + 2 * n, tuple(p2)))
+                want.add(frozenset((f"g{n}a", f"g{n}b")))
 
     def build(order):
         residues, atoms = [], []
